@@ -425,7 +425,6 @@ func c11Run(r *rt.Rec, rng *rand.Rand, n int) {
 	}
 }
 
-
 // c11SeparatorProbe: grouping by two columns whose values contain the pieces a
 // naive "join the columns with a separator" key would be made of: two different
 // combinations of grouping values must stay two groups.
